@@ -128,8 +128,9 @@ func (s *state) vhStep(stream string, f []string) (string, bool) {
 	case "dom": // dom <host> <aliases> <isIPs> <pt> <addr> <listenerPort> <port> <proxyDomain> <proxyless>
 		d, a := realDomains(wire.Dec(f[1]), wire.DecList(f[2]), f[4] == "1", wire.Dec(f[5]), atoi(f[6]), atoi(f[7]), wire.Dec(f[8]), f[9] == "1")
 		return "D:" + wire.EncList(d) + " A:" + wire.EncList(a), true
-	case "known":
+	case "known": // starts a new sequence of buildVirtualHost calls
 		v.known = sets.New(wire.DecList(f[1])...)
+		v.names, v.vhd, v.vhosts = sets.New[string](), sets.New[string](), nil
 		return "ok", true
 	case "vh": // vh <name> <domains> <altHosts>: one call of the buildVirtualHost closure (glue) around the REAL dedupeDomains
 		name := wire.Dec(f[1])
